@@ -24,7 +24,6 @@ import (
 	"google.golang.org/grpc/credentials/insecure"
 	"google.golang.org/grpc/status"
 
-	"verifharness/internal/cluster"
 	"verifharness/internal/ev"
 	"verifharness/internal/gen"
 )
@@ -61,6 +60,9 @@ type l2call struct {
 	FirstAfter    uint64  `json:"log_first_after"`
 	AppliedBefore uint64  `json:"applied_before"`
 	AppliedAfter  uint64  `json:"applied_after"`
+	// InvalidatedBelow: the log cache is known to have been emptied (LogCompacted handled) at a
+	// moment when the log's first index was already >= this value; sampled before the call.
+	InvalidatedBelow uint64 `json:"cache_known_emptied_at_first_index"`
 	Msgs          []l2msg `json:"messages"`
 	RPCErr        string  `json:"rpc_error,omitempty"`
 	code          codes.Code
@@ -84,6 +86,7 @@ type l2 struct {
 	maxRev    uint64
 	tainted   bool
 	cacheSize int
+	hook      *evHook
 	ops       []string
 	sawCmds   bool
 	sawSnap   bool
@@ -95,17 +98,18 @@ func runL2(r *ev.Run, rep *reporter, id caseID) {
 	h := &l2{r: r, rep: rep, id: id, rnd: rnd, g: gen.New(id.Seed), hist: map[uint64][]byte{}, desc: map[uint64]string{}}
 	h.g.NewPool(8)
 	h.cacheSize = cacheSizes[rnd.Intn(len(cacheSizes))]
-	c, err := cluster.Start(cluster.Opts{Nodes: 1, SnapshotEntries: 10, CompactionOverhead: 3, LogCacheSize: h.cacheSize})
+	h.hook = &evHook{}
+	eng, err := startEngine(h.cacheSize, h.hook)
 	if err != nil {
 		r.Inconclusive("engine start: " + err.Error())
 		return
 	}
-	defer c.Close()
-	if _, err := c.CreateTable("t"); err != nil {
+	defer closeEngine(eng)
+	h.eng = eng
+	if err := createTable(eng, "t"); err != nil {
 		r.Inconclusive("create table: " + err.Error())
 		return
 	}
-	h.eng = c.Nodes[0].Engine
 	if h.eng.LogCache == nil {
 		r.Inconclusive("engine has no log cache")
 		return
@@ -116,6 +120,9 @@ func runL2(r *ev.Run, rep *reporter, id caseID) {
 		return
 	}
 	h.shard = h.tbl.ClusterID
+	firstOf := func() uint64 { f, _ := h.logRange(); return f }
+	h.hook.firstOf.Store(&firstOf)
+	h.hook.shard.Store(h.shard)
 	h.simple = &logreader.Simple{LogQuerier: h.eng.NodeHost}
 	defer h.stopServers()
 	for _, lim := range msgLimits {
@@ -145,6 +152,8 @@ func runL2(r *ev.Run, rep *reporter, id caseID) {
 	if !h.concurrentPhase() {
 		return
 	}
+	r.Count("l2_logcompacted_events_seen", h.hook.seen.Load())
+	r.Count("l2_raft_event_lines_seen", h.hook.lines.Load())
 	if h.tainted {
 		r.Inconclusive("a revision could not be attributed to one proposal; command contents were not compared")
 		return
@@ -341,6 +350,7 @@ func (h *l2) propose(n int) error {
 // call performs one Replicate RPC and brackets it with samples of the log range and applied index.
 func (h *l2) call(s *l2srv, a uint64) *l2call {
 	c := &l2call{Server: s.name, Start: a, srv: s}
+	c.InvalidatedBelow = h.hook.confirmed.Load()
 	c.FirstBefore, _ = h.logRange()
 	c.AppliedBefore, _ = h.applied()
 	ctx, cancel := context.WithTimeout(context.Background(), 30*time.Second)
@@ -573,20 +583,19 @@ func (h *l2) judge(c *l2call, shape cacheShape, quiet bool) bool {
 			h.sawSnap = true
 			return true
 		}
-		if !c.srv.cached || !h.validStream(c, true) {
-			return h.fail("no-use-snapshot-for-compacted-index", fmt.Sprintf("requested %d is below the log's first index %d: expected exactly one USE_SNAPSHOT message", a, fLo), c, true)
-		}
-		// Correct commands for a compacted index from the cached server: legitimate only while the
-		// LogCompacted event is still on its way to the cache. Wait for the (logical) flip.
-		for i := 0; i < 150; i++ {
-			time.Sleep(20 * time.Millisecond)
-			c2 := h.call(c.srv, a)
-			if len(c2.Msgs) == 1 && c2.Msgs[0].Kind == "USE_SNAPSHOT" {
-				r.Count("l2_compacted_index_served_until_cache_invalidated", 1)
-				return true
+		if !c.srv.cached || a < c.InvalidatedBelow || !h.validStream(c, true) {
+			why := "uncached reader"
+			if c.srv.cached {
+				why = fmt.Sprintf("the cache was emptied by a LogCompacted event when the first index was already >= %d", c.InvalidatedBelow)
+				if a >= c.InvalidatedBelow {
+					why = "the streamed commands are not the log's"
+				}
 			}
+			return h.fail("no-use-snapshot-for-compacted-index", fmt.Sprintf("requested %d is below the log's first index %d (%s): expected exactly one USE_SNAPSHOT message", a, fLo, why), c, true)
 		}
-		r.Inconclusive(fmt.Sprintf("cached server kept serving compacted index %d (first %d) for 3 s; LogCompacted event not observed", a, fLo))
+		// Correct commands for a compacted index from the cached server while the handling of the
+		// LogCompacted event for that compaction has not been observed yet: production allows it.
+		r.Count("l2_compacted_index_served_before_cache_invalidation_observed", 1)
 		return true
 	case a < fHi:
 		// a compaction crossed the requested index during the call
